@@ -17,6 +17,9 @@ pub enum Op {
     SetLen,
     Finish,
     FinishMsg,
+    /// finish_with_message("") / abandon_with_message(""): the supplied (empty) message replaces the old one
+    FinishMsgEmpty,
+    AbandonMsgEmpty,
     FinishClear,
     Abandon,
     AbandonMsg,
@@ -112,7 +115,7 @@ impl Hist for C04s {
         if prefix.contains(&Op::DropBar) {
             return vec![];
         }
-        vec![Op::Burn, Op::Idle, Op::Tick, Op::Inc, Op::Msg(0), Op::Msg(1), Op::SetLen, Op::Finish, Op::FinishMsg, Op::FinishClear, Op::Abandon, Op::AbandonMsg, Op::FinishUsingStyle, Op::DropBar, Op::Iter(0), Op::Iter(1), Op::Iter(3), Op::IterFold(0), Op::IterFold(3), Op::Reset, Op::Println(0), Op::Println(1), Op::SuspendOut, Op::SuspendEmpty]
+        vec![Op::Burn, Op::Idle, Op::Tick, Op::Inc, Op::Msg(0), Op::Msg(1), Op::SetLen, Op::Finish, Op::FinishMsg, Op::FinishMsgEmpty, Op::AbandonMsgEmpty, Op::FinishClear, Op::Abandon, Op::AbandonMsg, Op::FinishUsingStyle, Op::DropBar, Op::Iter(0), Op::Iter(1), Op::Iter(3), Op::IterFold(0), Op::IterFold(3), Op::Reset, Op::Println(0), Op::Println(1), Op::SuspendOut, Op::SuspendEmpty]
     }
 
     fn run(&self, hist: &[Op], stats: &mut Stats) -> Verdict {
@@ -158,6 +161,8 @@ impl Hist for C04s {
                     Op::SetLen => b.set_length(9),
                     Op::Finish => b.finish(),
                     Op::FinishMsg => b.finish_with_message("done"),
+                    Op::FinishMsgEmpty => b.finish_with_message(""),
+                    Op::AbandonMsgEmpty => b.abandon_with_message(""),
                     Op::FinishClear => b.finish_and_clear(),
                     Op::Abandon => b.abandon(),
                     Op::AbandonMsg => b.abandon_with_message("ab"),
@@ -210,6 +215,16 @@ impl Hist for C04s {
                 Op::FinishMsg => {
                     rf.apply_fin(0);
                     rf.msg = "done".into();
+                    must_paint = true
+                }
+                Op::FinishMsgEmpty => {
+                    rf.apply_fin(0);
+                    rf.msg = String::new();
+                    must_paint = true
+                }
+                Op::AbandonMsgEmpty => {
+                    rf.apply_fin(3);
+                    rf.msg = String::new();
                     must_paint = true
                 }
                 Op::FinishClear => {
